@@ -42,6 +42,13 @@ class RmqShaped(kc.CommunicatorHelper):
         self.sent = []             # log: ['rpc', recipient, msg] | ['broadcast', sender, subject] | ['task', type]
         self.receiver_errors = []
 
+    def remove_rpc_subscriber(self, identifier):
+        # (fault: the request reaches the broker, the confirmation is lost -- the caller sees a timeout / closed connection)
+        super().remove_rpc_subscriber(identifier)
+        exc, self.fail_remove_rpc = getattr(self, 'fail_remove_rpc', None), None
+        if exc is not None:
+            raise exc
+
     def rpc_send(self, recipient_id, msg):
         self._ensure_open()
         self.sent.append(['rpc', str(recipient_id), msg])
